@@ -173,10 +173,21 @@ def c19_generate_slips(ctx, v):
         gp = ex.fresh_value("u64", "genesis_period")
         st.pc.append(z3.UGE(gp.bv, 1))
         none_net = S.EnumV("Option", "None", None, {"None": S.Agg("variant", "None", [])})
-        outs = ex.run(body, [S.Ref(S.Cell(w), (), True), req, none_net, ex.fresh_value("u64", "latest_block_id"), gp], st)
+        latest = ex.fresh_value("u64", "latest_block_id")
+        outs = ex.run(body, [S.Ref(S.Cell(w), (), True), req, none_net, latest, gp], st)
         v.paths += len(outs)
+        # funds outside the expiry margin: created after latest - (genesis_period - 1) (saturating)
+        margin = z3.If(z3.UGE(latest.bv, gp.bv - 1), latest.bv - (gp.bv - 1), z3.BitVecVal(0, 64))
+        usable = sum([z3.If(z3.UGT(b.bv, margin), z3.ZeroExt(64, a.bv), z3.BitVecVal(0, 128)) for a, b in zip(amts, bids)], z3.BitVecVal(0, 128))
 
-        def extra(o, ex=ex, amts=amts, req=req):
+        def extra(o, ex=ex, amts=amts, req=req, usable=usable):
+            ret0 = o.value
+            tin0 = sum([z3.ZeroExt(64, L.slip_field(ctx, s, "amount").bv) for s in ret0.fields[0].items], z3.BitVecVal(0, 128))
+            r0, m0 = ex.model_for(o.pc, z3.And(z3.UGE(usable, z3.ZeroExt(64, req.bv)), z3.ULT(tin0, z3.ZeroExt(64, req.bv))))
+            v.queries += 1
+            if r0 == z3.sat:
+                v.fail("generate_slips n=%d: the wallet holds enough unspent funds outside the expiry margin, yet the inputs gathered do not cover the requested amount (the transaction built from them spends more than it consumes)" % len(amts),
+                       dict(requested=m0.eval(req.bv, model_completion=True).as_long(), inputs_total=m0.eval(tin0, model_completion=True).as_long()))
             ret = o.value
             ins, outs_ = ret.fields[0], ret.fields[1]
             tin = sum([z3.ZeroExt(64, L.slip_field(ctx, s, "amount").bv) for s in ins.items], z3.BitVecVal(0, 128))
